@@ -29,7 +29,7 @@ META = dict(
     bounds=dict(quick="IonQ: 20 gate names, all placements on 3 qubits x 3 width modes, 8x12 seeded sequences; ProjectQ: 12 gate kinds x "
                       "qubits 0..11 x 11 literals, 6x12 sequences; repr: 27 gate kinds x placements x 13 parameters; operators: "
                       "64 words single-term + 24 seeded 2-3 term operators (concrete), 12 symbolic import operators",
-                thorough="IonQ: same singles + all 400 ordered name pairs + 40x12 sequences of length 3; ProjectQ: 40x12 sequences; "
+                thorough="IonQ: same singles + all 138x138 ordered pairs of gate placements on 3 qubits + 40x12 sequences of length 3; ProjectQ: 40x12 sequences; "
                          "operators: all 64 single words x 6 coefficients, 200 seeded 2-3 term operators, 64+60 symbolic import operators"),
     outside=["OpenQASM export (translate_c_to_openqasm delegates to qiskit's .qasm(): qiskit absent) - hence no OpenQASM round trip; "
              "qiskit, braket, qulacs, pennylane, stim, projectq-operator formats: packages absent",
@@ -434,7 +434,10 @@ def h_op_from_cirq_sym(env, ops, canary=False):
         qubits = cirq.LineQubit.range(nq)
         table, exp, strings = {}, {}, []
         for i, w in enumerate(words):
-            val = env.complex(f"o{k}c{i}")
+            # a term with coefficient exactly 0 is dropped by cirq (outside the claim): one component is kept non-zero
+            re = env.real(f"o{k}c{i}.re", nonzero=(i % 2 == 0))
+            im = env.real(f"o{k}c{i}.im", nonzero=(i % 2 == 1))
+            val = re + R.IMAG() * im if env.symbolic else complex(re, im)
             if env.symbolic:
                 carrier = sympy.Symbol(f"o{k}c{i}")
                 table[carrier.name] = val
@@ -503,9 +506,13 @@ def shapes(tier, seed):
         circs = [(_rand_ion_seq(rnd, 3 if thorough else rnd.choice((2, 3))), rnd.choice((None, 3, 5))) for _ in range(12)]
         out.append(Shape(f"ionq/seq/{i}", h_ionq, dict(circuits=circs), modules=M_IONQ))
     if thorough:
+        # every ordered pair of placements on 3 qubits (138 x 138 two-gate circuits)
+        allp = [pl for b in ION_ALL for pl in ion_placements(b)]
         for a in ION_ALL:
-            circs = [([rnd.choice(ion_placements(a)), rnd.choice(ion_placements(b))], None) for b in ION_ALL]
-            out.append(Shape(f"ionq/pairs/{a}", h_ionq, dict(circuits=circs), modules=M_IONQ))
+            pa = ion_placements(a)
+            for j in range(0, len(pa), 6):
+                circs = [([p1, p2], None) for p1 in pa[j:j + 6] for p2 in allp]
+                out.append(Shape(f"ionq/pairs/{a}/{j // 6}", h_ionq, dict(circuits=circs), modules=M_IONQ))
     for spec in ION_UNSUPPORTED:
         out.append(Shape(f"ionq/refuse/{spec[0]}", h_ionq_refuse, dict(spec=spec), modules=M_IONQ))
     out.append(Shape("ionq/import-refuse", h_ionq_import_refuse, {}, modules=M_IONQ))
